@@ -39,19 +39,32 @@ fn universe(uni: u8, k: usize) -> Vec<String> {
     }
 }
 
+thread_local! {
+    /// which pair of error shapes the two error codes stand for (0, 1 or 2); set by `check_fn`
+    static ERRSET: std::cell::Cell<u8> = const { std::cell::Cell::new(0) };
+}
+
+/// the six shapes an `Error` can take, two per error set
 fn err_of(code: usize, k: usize) -> E {
-    if code == k {
-        E::Invalid
-    } else {
-        E::Bad(0x42, 7, DP::Disallowed)
+    match (ERRSET.with(|e| e.get()), code == k) {
+        (0, true) => E::Invalid,
+        (0, false) => E::Bad(0x42, 7, DP::Disallowed),
+        (1, true) => E::ProfileRuleNA,
+        (1, false) => E::CtxNotApplicable(0x200C, 7, DP::ContextJ),
+        (_, true) => E::Undefined,
+        (_, false) => E::MissingRule(0xB7, 7, DP::ContextO),
     }
 }
 
 fn impl_err(code: usize, k: usize) -> Error {
-    if code == k {
-        Error::Invalid
-    } else {
-        Error::BadCodepoint(CodepointInfo::new(0x42, 7, DP::Disallowed.to_impl()))
+    use precis_core::UnexpectedError as U;
+    match (ERRSET.with(|e| e.get()), code == k) {
+        (0, true) => Error::Invalid,
+        (0, false) => Error::BadCodepoint(CodepointInfo::new(0x42, 7, DP::Disallowed.to_impl())),
+        (1, true) => Error::Unexpected(U::ProfileRuleNotApplicable),
+        (1, false) => Error::Unexpected(U::ContextRuleNotApplicable(CodepointInfo::new(0x200C, 7, DP::ContextJ.to_impl()))),
+        (_, true) => Error::Unexpected(U::Undefined),
+        (_, false) => Error::Unexpected(U::MissingContextRule(CodepointInfo::new(0xB7, 7, DP::ContextO.to_impl()))),
     }
 }
 
@@ -62,7 +75,8 @@ fn impl_err(code: usize, k: usize) -> Error {
 /// literal), even when the content equals the argument; 5 = Borrowed(input) when unchanged, else
 /// such a foreign `'static` string
 /// form: 0 = &str, 1 = String, 2 = Cow::Borrowed, 3 = Cow::Owned
-pub fn check_fn(f: &[usize], k: usize, start: usize, style: u8, form: u8, uni: u8, st: &mut Stats) {
+pub fn check_fn(f: &[usize], k: usize, start: usize, style: u8, form: u8, uni: u8, errset: u8, st: &mut Stats) {
+    ERRSET.with(|e| e.set(errset % 3));
     let names: Vec<String> = universe(uni, k);
     let log: RefCell<Vec<String>> = RefCell::new(Vec::new());
     let closure = constrain(|x: &str| -> Result<Cow<'_, str>, Error> {
@@ -130,6 +144,7 @@ pub fn check_fn(f: &[usize], k: usize, start: usize, style: u8, form: u8, uni: u
             .n(style as u64)
             .n(form as u64)
             .n(uni as u64)
+            .n(errset as u64)
             .x(json!(f))
     };
     let descr = |r: &Result<String, E>| match r {
@@ -193,6 +208,8 @@ pub fn check_fn(f: &[usize], k: usize, start: usize, style: u8, form: u8, uni: u
 /// stabilised sub-rule): f(x) = h(stabilize(x, g)). g and h range over all functions on the
 /// universe; the reference composes the two reference semantics.
 pub fn check_nested(g: &[usize], h: &[usize], k: usize, start: usize, st: &mut Stats) {
+    // error shapes rotate with the parameters (deterministically, so that a replay sees the same)
+    ERRSET.with(|e| e.set(((g[0] + h[0] + start) % 3) as u8));
     let names: Vec<String> = (0..k).map(name).collect();
     let idx = |x: &str| names.iter().position(|n| n == x);
     let apply = |f: &[usize], x: &str| -> Result<String, E> {
@@ -300,8 +317,13 @@ pub fn run(_env: &Env, run: &Run) -> (Stats, Coverage) {
                         // the argument forms only matter at entry; rotate them over styles/starts
                         for form in 0..4u8 {
                             if run.tier == Tier::Quick || form == ((start as u8 + style + uni) % 4) || idx % 7 == 0 {
-                                st.transitions += 1;
-                                check_fn(&f, k, start, style, form, uni, &mut st);
+                                // the six error shapes, two at a time
+                                for errset in 0..3u8 {
+                                    if errset == 0 || f.iter().any(|c| *c >= k) {
+                                        st.transitions += 1;
+                                        check_fn(&f, k, start, style, form, uni, errset, &mut st);
+                                    }
+                                }
                             }
                         }
                     }
@@ -342,7 +364,7 @@ pub fn run(_env: &Env, run: &Run) -> (Stats, Coverage) {
     st.sample(json!({"k": 4, "f": "0->1,1->0", "start": 0, "expected": "Err(Invalid) after 4 applications"}));
     st.sample(json!({"k": 4, "f": "0->1,1->Err(BadCodepoint)", "start": 0, "expected": "that BadCodepoint error, after 2 applications"}));
     let cov = Coverage {
-        rule: format!("state = (f, start, universe, Cow style, argument form) with f ranging over ALL {}^{} functions from a {}-element universe of strings (two universes: a^i, and distinct characters nested at the start / middle / end of each other) to that universe + {{Err(Invalid), Err(BadCodepoint)}}; oracle = RFC 8264 s.7 chain semantics (first application + 3 re-applications), call log must equal the chain; plus re-entrant use f(x) = h(stabilize(x, g)) for ALL pairs (g, h) of functions on a 3/4-element universe; non-trivial = chains needing more than one application", base, k, k),
+        rule: format!("state = (f, start, universe, Cow style, argument form) with f ranging over ALL {}^{} functions from a {}-element universe of strings (two universes: a^i, and distinct characters nested at the start / middle / end of each other) to that universe + two error results, instantiated with each of the three pairs of error shapes (Invalid / BadCodepoint, ProfileRuleNotApplicable / ContextRuleNotApplicable, Undefined / MissingContextRule); oracle = RFC 8264 s.7 chain semantics (first application + 3 re-applications), call log must equal the chain; plus re-entrant use f(x) = h(stabilize(x, g)) for ALL pairs (g, h) of functions on a 3/4-element universe; non-trivial = chains needing more than one application", base, k, k),
         alphabet: json!({"universe": (0..k).map(name).collect::<Vec<_>>(), "universe_1": UNIVERSE_B.iter().take(k).collect::<Vec<_>>(), "errors": ["Invalid", "BadCodepoint(0x42,7,Disallowed)"]}),
         bound_completed: format!("all {} functions x {} starts x 2 universes x 6 Cow styles (always Owned / Borrowed when unchanged / Borrowed sub-slice at the first / last occurrence of the image in the argument: prefixes, suffixes and slices that drop bytes at both ends / Borrowed 'static strings outside the argument, always or when changed) (x 4 argument forms{})", nf, k, if run.tier == Tier::Quick { "" } else { ", rotated; all 4 on every 7th function" }),
         exhaustive: true,
@@ -355,14 +377,14 @@ pub fn run(_env: &Env, run: &Run) -> (Stats, Coverage) {
 pub fn replay(_env: &Env, case: &Case) -> Vec<Violation> {
     let mut st = Stats::default();
     match case.op.as_str() {
-        "stabilize" if case.nums.len() == 4 || case.nums.len() == 5 => {
+        "stabilize" if (4..=6).contains(&case.nums.len()) => {
             let f: Vec<usize> = case
                 .extra
                 .as_array()
                 .map(|a| a.iter().filter_map(|x| x.as_u64().map(|x| x as usize)).collect())
                 .unwrap_or_default();
             if f.len() == case.nums[0] as usize {
-                check_fn(&f, case.nums[0] as usize, case.nums[1] as usize, case.nums[2] as u8, case.nums[3] as u8, case.nums.get(4).copied().unwrap_or(0) as u8, &mut st);
+                check_fn(&f, case.nums[0] as usize, case.nums[1] as usize, case.nums[2] as u8, case.nums[3] as u8, case.nums.get(4).copied().unwrap_or(0) as u8, case.nums.get(5).copied().unwrap_or(0) as u8, &mut st);
             }
         }
         "diverging" => check_diverging(&mut st),
